@@ -1426,6 +1426,15 @@ M('C10', 'MPOGraph.add_string_left_to_right: wrap test against the unreduced sta
   "            if (k - i) % self.L == 0:", "            if k % self.L == i:",
   'INDEX-mod-compare')
 
+M('C11', 'apply_zipup contracts the tensors as stored (round-5 seed a)', 'tenpy/networks/mpo.py',
+  "            B = npc.tensordot(psi.get_B(i, 'B'), self.get_W(i), axes=('p', 'p*'))\n            if i == 0 and bc == 'finite':\n                B = B.take_slice(self.get_IdL(i), 'wL')\n                B = B.combine_legs([['vL', 'p'], ['wR', 'vR']], qconj=[+1, -1])",
+  "            B = npc.tensordot(psi.get_B(i, form=None), self.get_W(i), axes=('p', 'p*'))\n            if i == 0 and bc == 'finite':\n                B = B.take_slice(self.get_IdL(i), 'wL')\n                B = B.combine_legs([['vL', 'p'], ['wR', 'vR']], qconj=[+1, -1])",
+  'MPO-apply-form')
+
+M('C11', 'MPO.overlap merges the two one-sided explicit_plus_hc cases (round-5 seed b)', 'tenpy/networks/mpo.py',
+  "            ov = A_B + np.conj(hcA_B)", "            ov = A_B + hcA_B",
+  'HCFLAG-overlap-table')
+
 # ---------------------------------------------------------------- C16 / C19
 M('C16', 'GMRES restart: relative residual norm used for normalisation (round-3 seed b)', KRY,
   """        self.total_error.append([npc.norm(self.rs[-1]) / self.b_norm])
